@@ -51,13 +51,14 @@ var u0, u1 = func() (string, string) {
 }()
 
 func cond(upstream, name string, v int32) *proxyv1alpha1.RateLimitCondition {
-	return &proxyv1alpha1.RateLimitCondition{ObjectMeta: metav1.ObjectMeta{Name: name},
+	// the label changes with the value: a save that carries new metadata must persist the new metadata
+	return &proxyv1alpha1.RateLimitCondition{ObjectMeta: metav1.ObjectMeta{Name: name, Labels: map[string]string{"proxy.kubegateway.io/ratelimitcondition.instance": fmt.Sprintf("gw-%s-%d", name, v%2)}},
 		Spec: proxyv1alpha1.RateLimitSpec{UpstreamCluster: upstream, Instance: "gw-" + name,
 			LimitItemConfigurations: []proxyv1alpha1.RateLimitItemConfiguration{{Name: "s", LimitItemDetail: proxyv1alpha1.LimitItemDetail{MaxRequestsInflight: &proxyv1alpha1.MaxRequestsInflightFlowControlSchema{Max: v}}}}}}
 }
 
 func content(c *proxyv1alpha1.RateLimitCondition) string {
-	return c.Spec.UpstreamCluster + kit.JSON(c.Spec.LimitItemConfigurations) + kit.JSON(c.Status)
+	return c.Spec.UpstreamCluster + kit.JSON(c.Spec.LimitItemConfigurations) + kit.JSON(c.Status) + kit.JSON(c.Labels)
 }
 
 type crashSignal struct{}
